@@ -92,10 +92,7 @@ impl Plugin for ServerEventPlugin {
         app.insert_resource(event_registry)
             .add_systems(
                 PreUpdate,
-                (
-                    receive.run_if(server_running),
-                    trigger.run_if(server_or_singleplayer),
-                )
+                (receive.run_if(server_running), trigger)
                     .chain()
                     .in_set(ServerSet::Receive),
             )
